@@ -536,11 +536,14 @@ def proof_status(prop, coq):
     files = sorted(set(f for pf in pfiles for f in coq_closure(pf)))
     obligations = 0
     discharged = 0
+    failed_set = set(coq.get("failed") or [])
     for f in files:
         src = re.sub(r"\(\*.*?\*\)", "", open(os.path.join(COQ, f)).read(), flags=re.S)
         n = len(re.findall(r"^\s*(?:Local\s+|Global\s+)?(?:Theorem|Lemma|Corollary|Example|Fact|Proposition|Remark)\s", src, re.M))
         obligations += n
-        if os.path.exists(os.path.join(COQ, f + "o")) and os.path.getmtime(os.path.join(COQ, f + "o")) >= os.path.getmtime(os.path.join(COQ, f)):
+        # compiled = the object exists and the last build (re-run whenever any source's content changes) did not fail
+        # on it or on anything it depends on (stage_coq removes those objects); file times are not consulted
+        if os.path.exists(os.path.join(COQ, f + "o")) and f[:-2] not in failed_set:
             discharged += n
         else:
             problems.append("not compiled: " + f)
@@ -564,7 +567,7 @@ def proof_status(prop, coq):
         vo = os.path.join(COQ, tf + "o")
         tpl = open(os.path.join(COQ, tf + ".in")).read() if os.path.exists(os.path.join(COQ, tf + ".in")) else ""
         mine_failed = [l for l in re.findall(r"^\s*(?:Lemma|Corollary)\s+(tie_\w+)", tpl, re.M) if l in failed_lemmas]
-        if os.path.exists(vo) and os.path.getmtime(vo) >= os.path.getmtime(tsrc):
+        if os.path.exists(vo) and tf[:-2] not in failed_set:
             discharged += n; tie["established"] += lem
         else:
             mine_failed += lem
